@@ -75,10 +75,10 @@ func TestC06Wait(t *testing.T) {
 		var wg sync.WaitGroup
 		start := make(chan struct{})
 		for g := 0; g < P; g++ {
-			plan := make([]int, 2+rng.IntN(8)) // 0 = publish, 1 = wait
+			plan := make([]int, 2+rng.IntN(8)) // 0 = publish, 1 = Wait, 2 = Shutdown(unbounded context, no store)
 			for k := range plan {
 				if rng.IntN(4) == 0 {
-					plan[k] = 1
+					plan[k] = 1 + rng.IntN(2)
 				}
 			}
 			plan = append(plan, 1)
@@ -90,6 +90,12 @@ func TestC06Wait(t *testing.T) {
 				for _, x := range plan {
 					if x == 1 {
 						w.Wait(g)
+						continue
+					}
+					if x == 2 {
+						if err := w.Shutdown(g); err != nil {
+							w.Rec(conc.Ev{G: g, K: "shutdown.err"})
+						}
 						continue
 					}
 					tt := int(w.NextEID()) % nT
